@@ -36,6 +36,7 @@ pub struct PointCloudWriter<'a, T: Read + Write + Seek> {
     point_count: u64,
     buffer: VecDeque<RawValues>,
     max_points_per_packet: usize,
+    finalized: bool,
     byte_streams: Vec<ByteStreamWriteBuffer>,
     cartesian_bounds: Option<CartesianBounds>,
     spherical_bounds: Option<SphericalBounds>,
@@ -147,6 +148,7 @@ impl<'a, T: Read + Write + Seek> PointCloudWriter<'a, T> {
             buffer: VecDeque::new(),
             byte_streams,
             max_points_per_packet,
+            finalized: false,
             cartesian_bounds,
             spherical_bounds,
             index_bounds,
@@ -431,6 +433,9 @@ impl<'a, T: Read + Write + Seek> PointCloudWriter<'a, T> {
 
     /// Adds a new point to the point cloud.
     pub fn add_point(&mut self, values: RawValues) -> Result<()> {
+        if self.finalized {
+            Error::invalid("Cannot add points to a point cloud that was already finalized")?
+        }
         if values.len() != self.prototype.len() {
             Error::invalid("Number of values does not match prototype length")?
         }
@@ -557,6 +562,11 @@ impl<'a, T: Read + Write + Seek> PointCloudWriter<'a, T> {
 
     /// Called after all points have been added to finalize the creation of the new point cloud.
     pub fn finalize(&mut self) -> Result<()> {
+        // A second call would write another packet and list the point cloud twice
+        if self.finalized {
+            Error::invalid("The point cloud was already finalized")?
+        }
+
         // Flush remaining points from buffer into byte streams and write them
         while !self.buffer.is_empty() {
             self.write_buffer_to_disk(false)?;
@@ -609,6 +619,7 @@ impl<'a, T: Read + Write + Seek> PointCloudWriter<'a, T> {
 
         // Add metadata for XML generation later, when the file is completed.
         self.pointclouds.push(pc);
+        self.finalized = true;
 
         Ok(())
     }
